@@ -62,18 +62,26 @@ Section Model.
 
   (* ---- the same with the field store ---------------------------------------------------------
      V lists what the objects' fields physically hold, as (owner, field, element).
-     update_value (inferred relations): container -> add if `not in`; scalar -> overwrite if different.
+     update_value (inferred relations): container -> add unless _holds(value); scalar -> overwrite if `is not`.
      A direct assertion (append / add / scalar assignment) calls add_to_graph FIRST (MonitoredContainer._add_item:
      _on_add then super().append) for containers and AFTER the store for scalars (__set__: setattr then
      add_relation_to_the_graph); list fields keep repetitions, set fields do not. *)
   Variable is_scalar : fld -> bool.
   Variable is_list : fld -> bool.
 
-  (* `value in container` / `v != value` compare with Python ==, not by identity: [cls o] is the ==-class of object o (two distinct
-     objects that compare and hash equal share a class; for identity-compared classes cls is injective) *)
+  (* "already there" (MonitoredContainer._holds, update_value's `v is not range_value`): symbols are identified by IDENTITY, as in
+     the symbol graph, wherever the container can hold two equal values: list fields (MonitoredList._holds scans with `is`) and
+     single-valued fields.  A Python set cannot hold two equal values at all, so for set fields "already there" is `value in self`,
+     i.e. up to Python ==: [cls o] is the ==-class of object o (distinct objects that compare and hash equal share a class). *)
   Variable cls : inst -> nat.
+  Definition same_slot_eq (e v : edge) : bool :=
+    Nat.eqb (esrc v) (esrc e) && Nat.eqb (efld v) (efld e) && Nat.eqb (cls (etgt v)) (cls (etgt e)).
   Definition in_field (e : edge) (V : list edge) : bool :=
-    existsb (fun v => Nat.eqb (esrc v) (esrc e) && Nat.eqb (efld v) (efld e) && Nat.eqb (cls (etgt v)) (cls (etgt e))) V.
+    if is_scalar (efld e) || is_list (efld e) then mem e V else existsb (same_slot_eq e) V.
+  (* before the repair of C15-b every kind of field compared with == *)
+  Definition in_field_old (e : edge) (V : list edge) : bool := existsb (same_slot_eq e) V.
+  Definition write_back_old (e : edge) (V : list edge) : list edge :=
+    if in_field_old e V then V else if is_scalar (efld e) then e :: filter (fun v => negb (Nat.eqb (esrc v) (esrc e) && Nat.eqb (efld v) (efld e))) V else e :: V.
   Definition drop_field (s : inst) (f : fld) (V : list edge) : list edge :=
     filter (fun v => negb (Nat.eqb (esrc v) s && Nat.eqb (efld v) f)) V.
   Definition write_back (e : edge) (V : list edge) : list edge :=
